@@ -282,6 +282,26 @@ def b_c04_numeric(ctx):
         for idx in ((0, 0), (1, 0), (1, 1)):
             chk("map == grain", numpy.allclose(mt[idx], g.mt) and numpy.allclose(cellm[idx], g.unitcell, atol=1e-9) and
                 numpy.allclose(Bm[idx], g.B, atol=1e-9) and numpy.allclose(Um[idx], g.U, atol=1e-9), cell=cell, voxel=idx)
+        # the TensorMap wrapper caches derived maps: after the UBI map is replaced (by attribute, by item, by add_map) every derived map must
+        # describe the new lattice - also when the derived maps had been asked for before
+        if hasattr(tm, "TensorMap"):
+            strain = numpy.eye(3) + 0.01 * (rng.rand(3, 3) - 0.5)
+            ubi_new = numpy.linalg.inv(numpy.linalg.inv(ubi).dot(strain))
+            for how in ("attribute", "item", "add_map"):
+                t = tm.TensorMap(maps={"UBI": numpy.array([[[ubi, ubi * numpy.nan, ubi]]])})
+                _ = (t.mt, t.unitcell, t.B, t.U, t.UB)
+                newmap = numpy.array([[[ubi_new, ubi_new, ubi_new * numpy.nan]]])
+                if how == "attribute":
+                    t.UBI = newmap
+                elif how == "item":
+                    t["UBI"] = newmap
+                else:
+                    t.add_map("UBI", newmap)
+                g2 = gr.grain(ubi_new)
+                okc = (numpy.allclose(t.mt[0, 0, 0], g2.mt) and numpy.allclose(t.unitcell[0, 0, 1], g2.unitcell, atol=1e-9) and
+                       numpy.allclose(t.B[0, 0, 0], g2.B, atol=1e-9) and numpy.allclose(t.U[0, 0, 1], g2.U, atol=1e-9) and
+                       numpy.allclose(t.UB[0, 0, 0], g2.UB, atol=1e-9) and numpy.isnan(t.U[0, 0, 2]).all())
+                chk("TensorMap: derived maps describe the old lattice after the UBI map was replaced (%s)" % how, okc, cell=cell)
         if len(samples) < 3:
             samples.append(dict(cell=[round(float(x), 3) for x in cell]))
     return dict(evaluations=ev, distinct_nontrivial=sum(1 for c in cells if c[3:] != [90, 90, 90]), samples=samples, failures=fails,
@@ -384,6 +404,11 @@ def b_c10_numeric(ctx):
             chk("grain-frame strain == Seth-Hill(S)", numpy.allclose(Eg, want, atol=1e-9), m=m, cell=cell)
             chk("sample-frame strain == R.E.R^T", numpy.allclose(Es, R.dot(want).dot(R.T), atol=1e-9), m=m, cell=cell)
             chk("symmetric", numpy.allclose(Eg, Eg.T, atol=1e-12) and numpy.allclose(Es, Es.T, atol=1e-12), m=m)
+            # the 6-component wrappers hand the exponent through: e11 e12 e13 e22 e23 e33 of the matrix for this m
+            e6 = lambda E: numpy.array([E[0, 0], E[0, 1], E[0, 2], E[1, 1], E[1, 2], E[2, 2]])
+            chk("eps_grain(m) == six components of eps_grain_matrix(m)", numpy.allclose(g.eps_grain(cell, m), e6(want), atol=1e-9), m=m, cell=cell)
+            chk("eps_sample(m) == six components of eps_sample_matrix(m)", numpy.allclose(g.eps_sample(cell, m), e6(R.dot(want).dot(R.T)), atol=1e-9),
+                m=m, cell=cell)
             Q = rot()
             g2 = gr.grain(Q.dot(F).dot(numpy.linalg.inv(B0.T)).T)
             chk("objective", numpy.allclose(g2.eps_grain_matrix(cell, m), Eg, atol=1e-9), m=m, cell=cell)
